@@ -35,10 +35,19 @@ def read(source, format=None):
     if format:
         return ProvDocument.deserialize(source=source, format=format.lower())
 
+    # A stream can only be consumed once: read it here and give its content
+    # to every deserializer that is tried
+    content = None
+    if hasattr(source, "read"):
+        content = source.read()
+        source = None
+
     for format in serializers:
         try:
-            return ProvDocument.deserialize(source=source, format=format)
-        except:
+            return ProvDocument.deserialize(
+                source=source, content=content, format=format
+            )
+        except Exception:
             pass
     else:
         raise TypeError(
